@@ -3,23 +3,29 @@
 (* The twenty properties C01..C20 as predicates over explicit state        *)
 (* records; dispatch for the trace spec (CheckStepP) and accumulators.     *)
 (***************************************************************************)
-EXTENDS PropsPanic, PropsLedger
+EXTENDS PropsPanic, PropsRisk
 
-Acc0 == [c15 |-> C15Acc0, c02 |-> C02Acc0]
+Acc0 == [c15 |-> C15Acc0, c02 |-> C02Acc0, c07 |-> C07Acc0]
 AccNext(acc, pre, e, post) ==
   [c15 |-> C15AccNext(acc.c15, pre, e, post),
-   c02 |-> C02AccNext(acc.c02, pre, e, post)]
+   c02 |-> C02AccNext(acc.c02, pre, e, post),
+   c07 |-> C07AccNext(acc.c07, pre, e, post)]
 
 \* invariants evaluated on a freshly reset state
 CheckInvP(want, s, e, line) == TRUE
 
 CheckStepP(want, pre, e, post, acc, line) ==
   /\ (want["C15"]) => C15(pre, e, post, acc.c15, line)
-  /\ (want["C14"]) => C14Pause(pre, e, post, line)
+  /\ (want["C14"]) => (C14Pause(pre, e, post, line) /\ C14Bank(pre, e, post, line))
   /\ (want["C01"]) => C01(pre, e, post, line)
   /\ (want["C02"]) => C02(pre, e, post, acc.c02, line)
   /\ (want["C03"]) => C03(pre, e, post, line)
   /\ (want["C06"]) => C06(pre, e, post, line)
   /\ (want["C16"]) => C16(pre, e, post, line)
   /\ (want["C17"]) => C17(pre, e, post, line)
+  /\ (want["C04"]) => C04(pre, e, post, line)
+  /\ (want["C05"]) => C05(pre, e, post, line)
+  /\ (want["C07"]) => C07(pre, e, post, acc.c07, line)
+  /\ (want["C09"]) => C09(pre, e, post, line)
+  /\ (want["C13"]) => C13(pre, e, post, line)
 =============================================================================
